@@ -52,7 +52,9 @@ for wk in Q.KINDS:
           add("C16-zero-po2", "And(x_bits == 1, x_int == 1, b_k == 0)")
         # adder mixed sign
         if {wk, xk} == {"po2", "relu_po2"}:
-          add("C16-adder-mixed-sign", "true")
+          # the output exponent field has m = max(bits) bits: sums of exponents outside [-2^(m-1), 2^(m-1)-1] are lost
+          m = "If(w_bits > x_bits, w_bits, x_bits)"
+          add("C16-adder-mixed-sign", "Or(a_e + b_e < -ipow2(%s - 1), a_e + b_e > ipow2(%s - 1) - 1)" % (m, m))
 path = '/verif/known_findings.json'
 data = json.load(open(path))
 data["findings"] = [f for f in data["findings"] if f["property"] != "C16"]
